@@ -47,7 +47,7 @@ def main():
     try:
         rc, o = sh(["git", "-C", "/repo", "worktree", "add", "-q", "--detach", wt, "HEAD"])
         pkgs = sorted(set("./" + (os.path.dirname(f) or ".") for f in demos))
-        run_demo = "go test -vet=off -count=1 -run 'TestDemo' " + " ".join(pkgs)
+        run_demo = "go test -vet=off -count=1 " + ("-race " if os.environ.get("INGEST_RACE") else "") + "-run 'TestDemo' " + " ".join(pkgs)
         # without the patch: demo passes
         for f in demos:
             shutil.copy(os.path.join(out, "demo", f), os.path.join(wt, f))
